@@ -903,6 +903,10 @@ impl<'tcx> Cx<'tcx> {
                         if ad.variants().len() <= 96 {
                             let names: Vec<J> = ad.variants().iter().map(|v| s(v.name.to_string())).collect();
                             o.set("variant_names", J::Arr(names));
+                            // the value the switch sees for each variant (declaration index != discriminant value when the enum
+                            // has explicit discriminants, e.g. Ordering::Less = -1)
+                            let vals: Vec<J> = ad.discriminants(self.tcx).map(|(_, d)| s(d.val.to_string())).collect();
+                            o.set("variant_discrs", J::Arr(vals));
                         }
                     }
                 }
